@@ -2,7 +2,7 @@
 # confirm a sub-agent's seeded defect in its scratch worktree and import it into /verif/seeded/
 # usage: confirm_seed.sh <PROP> <a|b> "<test paths>"
 P=$1; V=$2; TESTS=${3:-tests}
-WT=/tmp/wt-$P; S=${SEEDROOT:-/tmp/seed}-$P/$V
+WT=${WTROOT:-/tmp/wt}-$P; S=${SEEDROOT:-/tmp/seed}-$P/$V
 set -e
 git -C $WT checkout -q -- . ; git -C $WT status --short | grep -v '^??' && { echo "worktree dirty"; exit 1; }
 cd $WT
